@@ -687,7 +687,13 @@ class CausalInference(object):
                 var: state for var, state in zip(adjustment_set, state_comb)
             }
             evidence = {**do, **adj_evidence}
-            p_adj = p_z.get_value(**adj_evidence)
+            # Index the factor directly: `get_value(**adj_evidence)` only works for
+            # string variable names (keywords must be strings).
+            p_adj = p_z.values[
+                tuple(
+                    p_z.get_state_no(var, adj_evidence[var]) for var in p_z.variables
+                )
+            ]
             # A stratum of probability zero contributes nothing to the sum and
             # p(variables | do, z) is undefined (0/0 = nan) for it.
             if p_adj != 0:
